@@ -18,11 +18,11 @@ EXTENDS Integers, Sequences, FiniteSets, TLC, Json
 
 Tr == ndJsonDeserialize("rpctrace.ndjson")
 
-VARIABLES l, hostile, reacted, lcalls, lresults, closes, closereturns, done, tclosed, shut, caps, hostileq
-vars == <<l, hostile, reacted, lcalls, lresults, closes, closereturns, done, tclosed, shut, caps, hostileq>>
+VARIABLES l, hostile, reacted, lcalls, lresults, closes, closereturns, done, tclosed, shut, caps, hostileq, localuse
+vars == <<l, hostile, reacted, lcalls, lresults, closes, closereturns, done, tclosed, shut, caps, hostileq, localuse>>
 
 Fresh == /\ hostile = "" /\ reacted = FALSE /\ lcalls = {} /\ lresults = {} /\ closes = 0 /\ closereturns = 0
-         /\ done = FALSE /\ tclosed = FALSE /\ shut = <<>> /\ caps = {"B"} /\ hostileq = 0 - 1
+         /\ done = FALSE /\ tclosed = FALSE /\ shut = <<>> /\ caps = {"B"} /\ hostileq = 0 - 1 /\ localuse = FALSE
 Init == l = 1 /\ Fresh
 E == Tr[l]
 Ev(e) == l <= Len(Tr) /\ Tr[l].ev = e
@@ -33,50 +33,55 @@ Count(s, x) == Cardinality({ i \in 1..Len(s) : s[i] = x })
 \* reactions the protocol allows to a hostile message of this kind (as the first message sent afterwards)
 Unsupported == {"resolve", "provide", "accept", "join", "unknown-message", "disembargo-unknown-context", "sendresultsto-yourself"}
 \* calls that name no existing target: they can only be answered with an exception (or an abort)
-Undeliverable == {"call-unknown-export", "call-unknown-answer", "call-null-target", "call-unknown-target-which", "call-transform-unknown-op"}
+Undeliverable == {"call-unknown-export", "call-unknown-answer", "call-null-target", "call-unknown-target-which", "call-transform-unknown-op",
+                  "call-self-target", "call-cap-then-bad-cap", "call-unknown-target-which-with-cap", "call-transform-unknown-op-with-cap",
+                  "call-unknown-export-with-cap", "call-unknown-answer-with-cap"}
 Accept(kind) == IF kind \in Unsupported THEN {"unimplemented", "abort"}
                 ELSE {"abort", "return-exception", "unimplemented"}
 
 Reset == /\ Ev("reset") /\ Consume
          /\ hostile' = "" /\ reacted' = FALSE /\ lcalls' = {} /\ lresults' = {} /\ closes' = 0 /\ closereturns' = 0
-         /\ done' = FALSE /\ tclosed' = FALSE /\ shut' = <<>> /\ caps' = {"B"} /\ hostileq' = 0 - 1
+         /\ done' = FALSE /\ tclosed' = FALSE /\ shut' = <<>> /\ caps' = {"B"} /\ hostileq' = 0 - 1 /\ localuse' = FALSE
 Hostile == /\ Ev("hostile") /\ Consume /\ hostile' = E.kind /\ reacted' = FALSE /\ hostileq' = E.q
-           /\ UNCHANGED <<lcalls, lresults, closes, closereturns, done, tclosed, shut, caps>>
+           /\ UNCHANGED <<lcalls, lresults, closes, closereturns, done, tclosed, shut, caps, localuse>>
 \* a message sent by the connection
 Send == /\ Ev("msg") /\ E.dir = "send" /\ Consume
         /\ ~tclosed                                                   \* nothing is sent on a closed transport
         \* a call that could not be delivered never gets a results Return
         /\ ~(hostile \in Undeliverable /\ E.m = "return" /\ E.q = hostileq /\ E.kind = "results")
         /\ reacted' = (reacted \/ hostile # "")
-        /\ UNCHANGED <<hostile, lcalls, lresults, closes, closereturns, done, tclosed, shut, caps, hostileq>>
-Recv == /\ Ev("msg") /\ E.dir = "recv" /\ Consume /\ UNCHANGED <<hostile, reacted, lcalls, lresults, closes, closereturns, done, tclosed, shut, caps, hostileq>>
-LCall == /\ Ev("l-call") /\ Consume /\ lcalls' = lcalls \cup {E.tag}
+        /\ UNCHANGED <<hostile, lcalls, lresults, closes, closereturns, done, tclosed, shut, caps, hostileq, localuse>>
+Recv == /\ Ev("msg") /\ E.dir = "recv" /\ Consume /\ UNCHANGED <<hostile, reacted, lcalls, lresults, closes, closereturns, done, tclosed, shut, caps, hostileq, localuse>>
+LCall == /\ (Ev("l-call") \/ Ev("l-pcall")) /\ Consume /\ lcalls' = lcalls \cup {E.tag}
+         \* a call on a pipeline may end up on a capability of this vat: the application then uses it directly, not through the connection
+         /\ localuse' = (localuse \/ Ev("l-pcall"))
          /\ UNCHANGED <<hostile, reacted, lresults, closes, closereturns, done, tclosed, shut, caps, hostileq>>
 LResult == /\ Ev("l-result") /\ Consume /\ E.tag \in lcalls /\ E.tag \notin lresults /\ E.kind # "timeout"     \* resolves once, not by the harness' own timeout
            /\ lresults' = lresults \cup {E.tag}
-           /\ UNCHANGED <<hostile, reacted, lcalls, closes, closereturns, done, tclosed, shut, caps, hostileq>>
+           /\ UNCHANGED <<hostile, reacted, lcalls, closes, closereturns, done, tclosed, shut, caps, hostileq, localuse>>
 AppReturn == /\ Ev("app-return") /\ Consume /\ caps' = IF E.cap # "" THEN caps \cup {E.cap} ELSE caps
-             /\ UNCHANGED <<hostile, reacted, lcalls, lresults, closes, closereturns, done, tclosed, shut, hostileq>>
+             /\ UNCHANGED <<hostile, reacted, lcalls, lresults, closes, closereturns, done, tclosed, shut, hostileq, localuse>>
 Shutdown == /\ Ev("shutdown") /\ Consume /\ E.cap \notin Range(shut) /\ shut' = Append(shut, E.cap)
-            /\ UNCHANGED <<hostile, reacted, lcalls, lresults, closes, closereturns, done, tclosed, caps, hostileq>>
+            /\ UNCHANGED <<hostile, reacted, lcalls, lresults, closes, closereturns, done, tclosed, caps, hostileq, localuse>>
 Close == /\ Ev("close") /\ Consume /\ closes' = closes + 1
-         /\ UNCHANGED <<hostile, reacted, lcalls, lresults, closereturns, done, tclosed, shut, caps, hostileq>>
+         /\ UNCHANGED <<hostile, reacted, lcalls, lresults, closereturns, done, tclosed, shut, caps, hostileq, localuse>>
 CloseReturned == /\ Ev("close-returned") /\ Consume /\ closereturns' = closereturns + 1
-                 /\ \A k \in caps : k \in Range(shut)                 \* everything the connection held was released
-                 /\ UNCHANGED <<hostile, reacted, lcalls, lresults, closes, done, tclosed, shut, caps, hostileq>>
+                 /\ (localuse \/ \A k \in caps : k \in Range(shut))   \* everything the connection held was released (unless the application itself still uses it)
+                 /\ UNCHANGED <<hostile, reacted, lcalls, lresults, closes, done, tclosed, shut, caps, hostileq, localuse>>
 TransportClosed == /\ Ev("transport-closed") /\ Consume /\ tclosed' = TRUE
-                   /\ UNCHANGED <<hostile, reacted, lcalls, lresults, closes, closereturns, done, shut, caps, hostileq>>
+                   /\ UNCHANGED <<hostile, reacted, lcalls, lresults, closes, closereturns, done, shut, caps, hostileq, localuse>>
 Done == /\ Ev("done") /\ Consume /\ done' = TRUE
-        /\ UNCHANGED <<hostile, reacted, lcalls, lresults, closes, closereturns, tclosed, shut, caps, hostileq>>
+        /\ UNCHANGED <<hostile, reacted, lcalls, lresults, closes, closereturns, tclosed, shut, caps, hostileq, localuse>>
 \* the verif view after Close: the connection mutex can be taken, the sender lock is free
 View == /\ Ev("view") /\ Consume /\ E.kind = "free"
-        /\ UNCHANGED <<hostile, reacted, lcalls, lresults, closes, closereturns, done, tclosed, shut, caps, hostileq>>
+        /\ UNCHANGED <<hostile, reacted, lcalls, lresults, closes, closereturns, done, tclosed, shut, caps, hostileq, localuse>>
 End == /\ Ev("end") /\ Consume
        /\ lresults = lcalls /\ closereturns = closes /\ closes >= 1 /\ done
-       /\ UNCHANGED <<hostile, reacted, lcalls, lresults, closes, closereturns, done, tclosed, shut, caps, hostileq>>
+       /\ \A k \in caps : k \in Range(shut)
+       /\ UNCHANGED <<hostile, reacted, lcalls, lresults, closes, closereturns, done, tclosed, shut, caps, hostileq, localuse>>
 Passive == /\ (Ev("app-start") \/ Ev("app-cancelled") \/ Ev("reported") \/ Ev("fault") \/ Ev("quiesce") \/ Ev("l-bootstrap")
-               \/ Ev("l-handle") \/ Ev("l-release"))
-           /\ Consume /\ UNCHANGED <<hostile, reacted, lcalls, lresults, closes, closereturns, done, tclosed, shut, caps, hostileq>>
+               \/ Ev("l-handle") \/ Ev("l-release") \/ Ev("peer-deliver") \/ Ev("peer-echo"))
+           /\ Consume /\ UNCHANGED <<hostile, reacted, lcalls, lresults, closes, closereturns, done, tclosed, shut, caps, hostileq, localuse>>
 \* there is no action for: "send-after-close", "close-hung", "not-done", a "view" that is not free
 
 Next == Reset \/ Hostile \/ Send \/ Recv \/ LCall \/ LResult \/ AppReturn \/ Shutdown \/ Close \/ CloseReturned
